@@ -20,7 +20,7 @@ from __future__ import annotations
 from fractions import Fraction as F
 
 from ..absint import Raised, TOP, Evaluator, FuncV, Lin, Obj, SliceV, Sym, Unmodelled, simplify
-from ..harness import da_attr_models, da_method_models
+from ..harness import foreign_ops, da_attr_models, da_method_models
 from ..kernel import KernelFault, Data, KernelEval, OrderType, Quot, SumV, Term, order_types_point_vs_edges
 from ..xmodel import dimsym, make_da, make_grid
 
@@ -364,7 +364,10 @@ def _wrapper(ctx, P):
                 bad = bad or (f"argument {pos} of the kernel is {x!r} (operations {ops}); the caller's `{nm}` values must be passed as they are" +
                               (" - a subscript with the dimension name selects the dimension *coordinate*, not the array of bin edges" if ops and "getitem" in ops else ""))
     if not bad and isinstance(out, Obj):
-        others = [e[0] for e in out.eff if e[0] not in ("rename", "copy", "transpose", "assign_coords", "rename-name")]
+        others, unknown_ops = foreign_ops(out.eff)
+        if unknown_ops:
+            ctx.unknown("R07.4", "conservative_interpolation wrapper", f"operation(s) {unknown_ops} on the wrapper's result")
+            return
         if others:
             bad = f"the wrapper returns its result after {[e[0] for e in out.eff]}: the kernel's output is altered by {others}"
     if not bad:
